@@ -39,7 +39,7 @@ pub fn spec_of(c: &Case) -> GrammarSpec {
 }
 
 fn bcfg(c: &Case) -> BConfig {
-    BConfig { glr: c.glr, builder: 0, arrays: false, loc_info: c.loc_info, fancy: false, custom_lexer: false, rn_table: c.rn_table }
+    BConfig { glr: c.glr, builder: 0, arrays: false, loc_info: c.loc_info, fancy: false, custom_lexer: false, rn_table: c.rn_table , no_skip_ws: false }
 }
 
 pub fn inputs_of(c: &Case, spec: &GrammarSpec) -> Vec<String> {
